@@ -120,3 +120,57 @@ Proof.
   destruct (It.Select_loop1 fuel fuel vs f gyield (zlen vs) s 0) as [c| |]; [destruct c as [[s' r]|s']| |]; reflexivity.
 Qed.
 End Iter.
+
+(* ---- Dedup = slices.Compact(vs) ----
+   Gen/FnSlice.Dedup hands its argument (elements and view) to the external slices.Compact and
+   returns what that returns: the result's view and the argument's new elements.  Compact's own
+   body is outside the translator's subset (s2 := s[k:] aliases s): compact_impl is a HAND copy of
+   the go1.23 loop, given here to the generated Dedup as the external function (g_compact). *)
+Section Dedup.
+Context {T : Type}.
+Variable eqb : T -> T -> bool.
+Variable zero : T.
+
+(* whatever slices.Compact is, Dedup is it *)
+Theorem dedup_hands_over : forall (vs : list T) (vs_v : view) (compact : list T -> view -> res (view * list T)),
+  Dedup vs vs_v compact = compact vs vs_v.
+Proof. reflexivity. Qed.
+
+(* the hand model of slices.Compact as that external function: s[:k] of the argument's view *)
+Definition g_compact (s : list T) (gv : view) : res (view * list T) :=
+  match MM.compact_impl eqb zero s with
+  | M.Ok (s', k) => do w <- go_slice3 gv 0 k (vcap gv); Ok (w, s')
+  | M.Panic p => Panic (emb_panic p)
+  | M.OutOfFuel => OutOfFuel
+  end.
+
+Theorem dedup_is_source : forall (vs : list T) (v : M.view),
+  Dedup vs (vw v) g_compact = embf (fun ws : M.view * list T => (vw (fst ws), snd ws)) (MM.dedup_view eqb zero vs v).
+Proof.
+  intros vs v. unfold Dedup, g_compact, MM.dedup_view.
+  destruct (MM.compact_impl eqb zero vs) as [[s' k]| |]; cbn [M.bind embf fst snd]; try reflexivity.
+  change (vcap (vw v)) with (M.vcap v). rewrite slice3_eq.
+  destruct (M.slice3 v 0 k (M.vcap v)) as [w| |]; reflexivity.
+Qed.
+
+(* on a view that is the whole argument (len = number of elements <= cap): the first k slots
+   hold the reference dedup_spec (the first element of every run), the rest is zeroed, the result
+   is the prefix view [off, k, cap] of the same array *)
+Theorem dedup_source_spec : forall (vs : list T) (v : M.view),
+  M.vlen v = zlen vs -> M.vlen v <= M.vcap v ->
+  Dedup vs (vw v) g_compact
+  = Ok (mkView (M.voff v) (zlen (MM.dedup_spec eqb vs)) (M.vcap v),
+        MM.dedup_spec eqb vs ++ repeat zero (length vs - length (MM.dedup_spec eqb vs))).
+Proof.
+  intros vs v Hl Hc. rewrite dedup_is_source. unfold MM.dedup_view.
+  rewrite MP.compact_impl_spec. cbn [M.bind fst snd].
+  assert (L : (length (MM.dedup_spec eqb vs) <= length vs)%nat).
+  { destruct vs as [|x r]; cbn [MM.dedup_spec length]; [lia|]. pose proof (MP.dedup_from_length eqb x r). lia. }
+  unfold M.slice3.
+  assert (C : (0 <=? 0) && (0 <=? M.zlen (MM.dedup_spec eqb vs)) && (M.zlen (MM.dedup_spec eqb vs) <=? M.vcap v)
+              && (M.vcap v <=? M.vcap v) = true).
+  { repeat (apply andb_true_intro; split); apply Z.leb_le; unfold M.zlen; unfold zlen in Hl; lia. }
+  rewrite C. cbn [M.bind embf fst snd vw M.voff M.vlen M.vcap].
+  rewrite !Z.add_0_r, !Z.sub_0_r. reflexivity.
+Qed.
+End Dedup.
